@@ -1434,6 +1434,15 @@ fn verify_upgrade(
     }
     let extra = &upgrade.additional_nodes;
 
+    if changeset.roots.is_empty() {
+        return Err(HypercoreError::InvalidOperation {
+            context: format!(
+                "Upgrade to length {} has no roots, store: {}",
+                upgrade.start + upgrade.length,
+                Store::Tree
+            ),
+        });
+    }
     iter.seek(changeset.roots[changeset.roots.len() - 1].index);
     i = 0;
 
